@@ -168,15 +168,16 @@ def _col(v, n):
     return v
 
 
-def run_dao(rng, img, kind):
+def run_dao(rng, img, kind, p=None):
     from photutils.detection import DAOStarFinder
-    p = dict(threshold=rng.choice([0.0, 1.0, 5.0]), fwhm=rng.choice([1.5, 2.0, 3.0, 4.0, 5.0, 6.0]),
+    preset = p is not None
+    p = p if preset else dict(threshold=rng.choice([0.0, 1.0, 5.0]), fwhm=rng.choice([1.5, 2.0, 3.0, 4.0, 5.0, 6.0]),
              ratio=rng.choice([1.0, 1.0, 0.7, 0.5]), theta=rng.choice([0.0, 0.0, 30.0, 90.0]),
              sigma_radius=rng.choice([1.5, 1.5, 1.0]), exclude_border=rng.random() < 0.3, xy=None)
     ny, nx = img.shape
-    if kind in ('flat', 'zero') or rng.random() < 0.35:
+    if not preset and (kind in ('flat', 'zero') or rng.random() < 0.35):
         p['xy'] = positions(rng, ny, nx, rng.randint(1, MAX_SRC))
-    if kind == 'sym4':
+    if not preset and kind == 'sym4':
         p['xy'] = [(ny // 2, nx // 2)]
         p['ratio'], p['theta'] = 1.0, 0.0
     xy = None if p['xy'] is None else np.array([(x, y) for y, x in p['xy']], float)
@@ -202,18 +203,21 @@ def run_dao(rng, img, kind):
     return p, dict(term=term, srcs=srcs, shape=(kny, knx), attrs=DAO_ATTRS)
 
 
-def run_iraf(rng, img, kind):
+def run_iraf(rng, img, kind, p=None):
     from photutils.detection import IRAFStarFinder
-    p = dict(threshold=rng.choice([0.0, 1.0, 5.0]), fwhm=rng.choice([2.0, 3.0, 4.0, 4.0, 5.0, 6.0]),
-             exclude_border=rng.random() < 0.3, xy=None)
+    preset = p is not None
+    p = p if preset else dict(threshold=rng.choice([0.0, 1.0, 5.0]), fwhm=rng.choice([2.0, 3.0, 4.0, 4.0, 5.0, 6.0]),
+                              exclude_border=rng.random() < 0.3, xy=None)
     ny, nx = img.shape
-    if kind in ('flat', 'zero') or rng.random() < 0.35:
+    if not preset and (kind in ('flat', 'zero') or rng.random() < 0.35):
         p['xy'] = positions(rng, ny, nx, rng.randint(1, MAX_SRC))
-    if kind == 'sym4':
+    if not preset and kind == 'sym4':
         p['xy'] = [(ny // 2, nx // 2)]
+    if not preset:
+        p['min_separation'] = rng.choice([None, 0.0, 2.0])
     xy = None if p['xy'] is None else np.array([(x, y) for y, x in p['xy']], float)
     f = IRAFStarFinder(p['threshold'], p['fwhm'], exclude_border=p['exclude_border'], xycoords=xy,
-                       min_separation=rng.choice([None, 0.0, 2.0]))
+                       min_separation=p.get('min_separation'))
     with warnings.catch_warnings():
         warnings.simplefilter('ignore')
         cat = f._get_raw_catalog(img.copy())
@@ -239,9 +243,9 @@ def run_iraf(rng, img, kind):
                    nsky=int((~k.mask.astype(bool)).sum()))
 
 
-def run_sf(rng, img, kind):
+def run_sf(rng, img, kind, p=None):
     from photutils.detection import StarFinder
-    p = dict(threshold=rng.choice([0.0, 1.0, 5.0]), kernel=(rng.choice([3, 5, 7, 4]), rng.choice([3, 5, 7, 6]),
+    p = p if p is not None else dict(threshold=rng.choice([0.0, 1.0, 5.0]), kernel=(rng.choice([3, 5, 7, 4]), rng.choice([3, 5, 7, 6]),
                                                             rng.choice([0.8, 1.2, 2.0])),
              min_separation=rng.choice([5.0, 0.0, 2.0]), exclude_border=rng.random() < 0.3)
     f = StarFinder(p['threshold'], sf_kernel(*p['kernel']), min_separation=p['min_separation'],
@@ -320,12 +324,13 @@ def run_statistics_correspondence(ctx, n_cases):
     if not terms:
         return out
     bad = ctx.coq_eval_cases(IMPORTS, 'check_case', terms, case_type='case', tag='c14d')
-    dao_idx = [i for i, m in enumerate(meta) if m['finder'] == 'DAO']
-    amb = ctx.coq_eval_cases(IMPORTS, 'case_unambiguous', [terms[i] for i in dao_idx], case_type='case',
-                             tag='c14d_amb') if dao_idx else []
+    # cases in which some comparison was NOT made: a DAOFIND fit branch decided by rounding, or an IRAF /
+    # StarFinder quotient whose denominator (M00 with an inexact sky, mu_sum of a one-pixel source) lies within
+    # its own error bound of 0, so that no finite error bound exists (exactly 0/0 computed as tiny/tiny)
+    amb = ctx.coq_eval_cases(IMPORTS, 'case_unambiguous', terms, case_type='case', tag='c14d_amb')
     out['rounding_decided_cases'] = len(amb)
     for j in amb:
-        ctx.stat('statistics_DAO', 'rounding_decided:scene=' + meta[dao_idx[j]]['scene'])
+        ctx.stat('statistics_' + meta[j]['finder'], 'rounding_decided:scene=' + meta[j]['scene'])
     out['disagreements'] = len(bad)
     for i in bad[:10]:
         try:
@@ -343,12 +348,48 @@ def run_statistics_correspondence(ctx, n_cases):
     return out
 
 
+def replay(obj):
+    """re-run one recorded statistics case (the dict written by ctx.violation) -> 0 agrees / 1 disagrees"""
+    from . import core
+    case = obj['replay']['case'] if 'replay' in obj else obj['case']
+    kind = case['finder']
+    p = dict(case['params'])
+    if p.get('xy') is not None:
+        p['xy'] = [tuple(q) for q in p['xy']]
+    if p.get('kernel') is not None:
+        p['kernel'] = tuple(p['kernel'])
+    img = np.array(case['image'], float)
+    core.setup_repo_path()
+    ctx = core.Ctx('C14D', 'quick', 0)
+    ok, log, missing = core.build_files(['lib/Cases.v', 'C14D_Model.v'])
+    _, res = RUNNERS[kind](None, img, case['scene'], p)
+    if res is None:
+        print('no sources')
+        return 0
+    bad = ctx.coq_eval_cases(IMPORTS, 'check_case', [res['term']], case_type='case', tag='c14d_replay')
+    amb = ctx.coq_eval_cases(IMPORTS, 'case_unambiguous', [res['term']], case_type='case', tag='c14d_replay_amb')
+    model = ctx.coq_eval_term(IMPORTS, f'model_out ({res["term"]})', tag='c14d_replay_detail')
+    for (y, x, v) in res['srcs']:
+        print((y, x), dict(zip(res['attrs'], map(_jf, v))))
+    print('model:', model)
+    print('comparison skipped somewhere (rounding-decided / unconstrained quotient):', bool(amb))
+    print('model and implementation agree' if not bad else 'model and implementation DISAGREE')
+    return 1 if bad else 0
+
+
+def replay_file(path):
+    import json
+    return replay(json.load(open(path)))
+
+
 def main(argv=None):
     """Standalone: python -m harness.c14d [n_cases] [seed]  (uses a private work directory)."""
     import json
     import sys
     from . import core
     argv = sys.argv[1:] if argv is None else argv
+    if argv and argv[0] == '--replay':
+        return replay_file(argv[1])
     n = int(argv[0]) if argv else 150
     seed = int(argv[1]) if len(argv) > 1 else 0
     core.setup_repo_path()
